@@ -466,6 +466,12 @@ var handFaultLists = []struct {
 }
 
 var handOrderItems = [][]SDLItem{
+	// two schema definitions (one too many wherever they stand); roots named by an extension of the schema while
+	// types with the default root names exist
+	ordItems("schema { query: Q }", "schema { query: R }", "type Q { a: Int }", "type R { a: Int }"),
+	ordItems("schema { query: Q }", "type Q { a: Int }", "schema { mutation: Q }"),
+	ordItems("extend schema { query: Root mutation: Writes }", "type Root { a: Int }", "type Writes { w: Int }", "type Query { notroot: Int }", "type Mutation { notroot: Int }"),
+	ordItems("extend schema { mutation: Writes }", "type Query { a: Int }", "type Writes { w: Int }", "type Mutation { notroot: Int }", "type Subscription { s: Int }"),
 	// a field narrowed to one implementer of an interface that another INTERFACE implements too
 	ordItems("interface Node { id: ID }", "interface Named implements Node { id: ID name: String }", "type User implements Node { id: ID }", "interface Holder { item: Node items: [Node!] }",
 		"type Box implements Holder { item: User items: [User!] }", "type Query { b: Box n: Named }"),
@@ -549,6 +555,9 @@ func smallTypeSystems(k int) []string {
 }
 
 var handSchemas = []string{
+	"extend schema { query: Root mutation: Writes } type Root { a: Int } type Writes { w: Int } type Query { notroot: Int } type Mutation { notroot: Int }",
+	"extend schema { subscription: Subs } type Query { a: Int } type Subs { s: Int } type Subscription { notroot: Int }",
+	"schema { query: Q } schema { query: R } type Q { a: Int } type R { a: Int }",
 	// built-in names redefined, extended, referred to and misapplied
 	"scalar String type Query { a: String }", "type Int { x: Int } type Query { a: Int }", "enum Boolean { T F } type Query { a: Boolean }", "scalar ID scalar Float type Query { a: ID }",
 	"type Query { t: __Type s: __Schema k: __TypeKind f: __Field i: __InputValue e: __EnumValue d: __Directive l: __DirectiveLocation }", "input I { f: __Type } type Query { a(i: I): Int }",
